@@ -275,6 +275,7 @@ class ClientRun:
         self.shuffler.force_bord = e.get("bord") if e.get("forced") else None
         self._delays = self.clock.delays
         exc = ""
+        answered = []
         close0 = self.close_fired
         try:
             if a == "CallMeta":
@@ -292,7 +293,10 @@ class ClientRun:
                 self._watch(len(self.ops), "commit", d)
             elif a == "Answer":
                 c = self._conn_for(t)
-                self.cluster.answer(c.oldest(), override=x or None)
+                pnd = c.oldest()
+                dsc = self._desc(0, pnd.raw)
+                answered = [dsc[1], dsc[2], dsc[3]]
+                self.cluster.answer(pnd, override=x or None)
             elif a == "Timeout":
                 due = min(dc.getTime() for dc in self.request_timers())
                 guard = 0
@@ -378,7 +382,7 @@ class ClientRun:
                       "coord": 0 if coord is None else coord.node_id},
             "exc": exc,
         }
-        ev = {"a": a, "op": 0, "t": t, "x": x, "pl": pl, "ord": ord_, "bord": bord}
+        ev = {"a": a, "op": 0, "t": t, "x": x, "pl": pl, "ord": ord_, "bord": bord, "k": answered if a == "Answer" else []}
         self.trace.append({"e": ev, "o": o})
         if ambiguous:
             # two shuffles with different results inside one event: beyond what one event record can carry
@@ -404,7 +408,7 @@ def execute(events, dot=False, forced=True):
         run.restore()
 
 
-EV0 = {"op": 0, "t": 0, "x": 0, "pl": []}
+EV0 = {"op": 0, "t": 0, "x": 0, "pl": [], "k": []}
 
 
 PROFILES = {
